@@ -400,7 +400,16 @@ class C15:
                 bump(faults, 'interrupt_' + op['payload'])
                 if delivered:
                     bump(probes, 'interrupt_delivered')
-                # the interrupted call only has to raise; every handle must be as it was
+                # the interrupted call may raise; if it RETURNS NORMALLY its result must be right (DESIGN 3.6); every handle must be as it was
+                if out[0] == 'ok' and out[1] is not None:
+                    bump(probes)
+                    new_chain = h['chain'] + [[op['iv'], op['dir']]]
+                    exp_cells, _mf, uncon = self._expected(docs[h['src']], h, new_chain, 'transpose')
+                    try:
+                        tmp = {'doc': out[1], 'src': h['src'], 'chain': new_chain, 'recorded': exports(out[1]), 'kind': 'result', 'base': h['base'], 'unconstrained': uncon}
+                        self._check_result(docs[h['src']], h, tmp, exp_cells, 'transpose-after-injected-' + op['payload'], op['iv'], op['dir'], plan['class'], add_v, probes, bump)
+                    except Exception as e:
+                        add_v('export-raised', 'export-raised/result-of-interrupted-call', 'exports of the returned document', type(e).__name__)
                 check_all('interrupt')
         n_notes = sum(1 for d in docs for _, _, c in d.data_cells() if c.kind == 'note')
         ok_transposes = sum(1 for h in handles if h['kind'] == 'result')
